@@ -662,6 +662,8 @@ type SchedResult struct {
 	ILHash     uint64            `json:"interleaving_hash"`
 	ResHash    uint64            `json:"result_hash"`
 	Blocked    bool              `json:"blocked,omitempty"`
+	BlockedAt  []string          `json:"blocked_at,omitempty"`
+	QUsed      int               `json:"quanta_used,omitempty"` // schedule entries consumed when the run blocked
 	Faults     map[string]int    `json:"faults,omitempty"`
 	Schedule   []Quantum         `json:"schedule,omitempty"`
 	TaskAborts int               `json:"task_aborts"`
@@ -828,6 +830,13 @@ func runSched(pl *Plan, atomic bool, keepTrace bool, refWant [][]string) (res Sc
 	}
 	schedLoop(pl, sched, tasks, sw, fp0, &res, il, viol, keepTrace)
 	if res.Blocked {
+		if !atomic && res.Clause == "" {
+			// Not a verdict yet: the driver confirms it in fresh processes (reportSchedViolation) and
+			// checks that the very same calls, one at a time, all return.
+			res.Clause = "C14.deadlock"
+			res.Witness = map[string]string{"blocked": strings.Join(res.BlockedAt, "; "), "tasks-in-flight": fmt.Sprint(len(res.BlockedAt)),
+				"why": "every call in flight is blocked inside the library and none is parked by the simulator (so nobody is left to release them); no statement was executed for " + patience.String() + ". Run one at a time the same calls all return."}
+		}
 		return
 	}
 	for range tasks {
@@ -946,13 +955,26 @@ func schedLoop(pl *Plan, sched []Quantum, tasks []*rt.Task, sw *schedWorld, fp0 
 		tk := tasks[q.T]
 		if tk.Detached {
 			// the task was blocked inside the library when we last waited for it; has it come back?
-			ev, ok := tryEvent(tk, detachedCount(tasks) == liveCount(tasks), timer)
+			ev, ok := tryEvent(tk, false, timer)
 			if !ok {
-				if detachedCount(tasks) == liveCount(tasks) {
-					res.Blocked = true // every live task is blocked: a deadlock we cannot resolve
+				if detachedCount(tasks) != liveCount(tasks) {
+					continue
+				}
+				// Every live task is inside the library and none is parked by the simulator: nobody is
+				// left whom the scheduler could run to release them. Give all of them time (one may just
+				// be slow); if none reaches a yield point they are waiting for each other.
+				t2, ev2, ok2 := anyEvent(tasks, patience)
+				if !ok2 {
+					res.Blocked = true
+					res.QUsed = qi
+					for t, x := range tasks {
+						if !x.Done {
+							res.BlockedAt = append(res.BlockedAt, "task "+strconv.Itoa(t)+" inside "+rt.SiteNames[x.Site]+" (after "+strconv.FormatInt(x.Steps, 10)+" statements)")
+						}
+					}
 					return
 				}
-				continue
+				q.T, tk, ev = t2, tasks[t2], ev2
 			}
 			tk.Detached = false
 			rt.SlowIdent = detachedCount(tasks) > 0
@@ -1059,6 +1081,33 @@ func liveCount(tasks []*rt.Task) int {
 	return n
 }
 
+// patience: how long all tasks may stay inside the library without any of them reaching a yield
+// point before the run counts as deadlocked (VERIF_PATIENCE_MS overrides; shorter while shrinking).
+var patience = 5 * time.Second
+
+// anyEvent waits until one of the detached tasks reaches a yield point (or finishes).
+//
+//go:norace
+func anyEvent(tasks []*rt.Task, d time.Duration) (int, int, bool) {
+	deadline := time.Now().Add(d)
+	for {
+		for t, tk := range tasks {
+			if tk.Done || !tk.Detached {
+				continue
+			}
+			select {
+			case ev := <-tk.Ev:
+				return t, ev, true
+			default:
+			}
+		}
+		if time.Now().After(deadline) {
+			return 0, 0, false
+		}
+		time.Sleep(time.Millisecond)
+	}
+}
+
 // tryEvent polls a detached task: has it reached a yield point meanwhile? If patient, wait up to 3 s.
 //
 //go:norace
@@ -1090,6 +1139,11 @@ func tryEvent(tk *rt.Task, patient bool, timer *time.Timer) (int, bool) {
 // ---------------------------------------------------------------- worker
 
 func schedInit() {
+	if v := os.Getenv("VERIF_PATIENCE_MS"); v != "" {
+		if n, err := strconv.Atoi(v); err == nil && n > 0 {
+			patience = time.Duration(n) * time.Millisecond
+		}
+	}
 	setMenu()
 	tblSets = setMenu()
 	initHotSites()
@@ -1240,7 +1294,12 @@ func schedWorker() {
 		if (i/(*fStride))%25 == 0 {
 			pl2 := genSchedPlan(seed, i)
 			res2 := runSched(&pl2, *fAtomic || i == *fAtomic1, false, ref.Want(&pl2))
-			if res2.ILHash != res.ILHash || res2.ResHash != res.ResHash {
+			const det = "task blocked inside the library (detached)"
+			if res.Faults[det] > 0 || res2.Faults[det] > 0 {
+				// tasks blocked on primitives the simulator does not own are released in the runtime's
+				// order, not the plan's: such runs are not expected to repeat exactly
+				out.Extra["determinism_rechecks_skipped_task_blocked_inside_library"]++
+			} else if res2.ILHash != res.ILHash || res2.ResHash != res.ResHash {
 				out.Mismatch = append(out.Mismatch, i) // see worldWorker
 			} else {
 				out.Redone++
@@ -1359,6 +1418,8 @@ func runOne(bin string, pl *Plan, tmp string, atomic bool) oneResult {
 	return runOnePre(bin, pl, tmp, atomic, nil)
 }
 
+var childPatienceMS int // >0: children declare a deadlock after this long (used while shrinking one)
+
 // runOnePre: like runOne, after re-executing a prelude of earlier runs in the same child process.
 func runOnePre(bin string, pl *Plan, tmp string, atomic bool, pre *Prelude) oneResult {
 	pf := filepath.Join(tmp, fmt.Sprintf("one-%d.json", time.Now().UnixNano()))
@@ -1377,6 +1438,9 @@ func runOnePre(bin string, pl *Plan, tmp string, atomic bool, pre *Prelude) oneR
 	}
 	cmd := exec.Command(bin, args...)
 	cmd.Env = append(os.Environ(), "GORACE=halt_on_error=1 exitcode=66 log_path="+rl)
+	if childPatienceMS > 0 {
+		cmd.Env = append(cmd.Env, fmt.Sprint("VERIF_PATIENCE_MS=", childPatienceMS))
+	}
 	var r oneResult
 	outb, err := cmd.CombinedOutput()
 	if err != nil {
@@ -1557,6 +1621,7 @@ func runSchedChildren(bin string, n int, tag string, capSec int) ([]*WorkerOut, 
 	deadline := time.After(time.Duration(capSec) * time.Second)
 	var outs []*WorkerOut
 	var viol *FoundViolation
+	deadlocks := 0
 	for len(queue) > 0 || running > 0 {
 		for running < workers && len(queue) > 0 && viol == nil {
 			launch(queue[0])
@@ -1587,6 +1652,19 @@ func runSchedChildren(bin string, n int, tag string, capSec int) ([]*WorkerOut, 
 				}
 				outs = append(outs, o)
 				blocks++
+				if !c.j.atomic && deadlocks < 3 {
+					// Every call in flight blocked inside the library with nobody left to release them.
+					// Confirm in a fresh process; a confirmed deadlock is a violation, anything else
+					// falls back to operation-atomic quanta as before.
+					deadlocks++
+					bp := genSchedPlan(masterSeed(), o.BlockedRun)
+					if r := runOne(bin, &bp, *fTmp, false); !r.Race && r.Res.Blocked && r.Res.Clause == "C14.deadlock" {
+						v := &FoundViolation{From: o.BlockedRun, Run: o.BlockedRun, Plan: bp, V: Violation{Clause: "C14.deadlock", Witness: r.Res.Witness}}
+						if viol == nil || v.Run < viol.Run {
+							viol = v
+						}
+					}
+				}
 				// A task was parked with a lock in its hands (the simulator does not own the library's
 				// locks). The process is poisoned (a leaked goroutine still holds the lock), so the rest
 				// of the chunk goes to a fresh process, the blocked plan with operation-atomic quanta.
@@ -1762,15 +1840,43 @@ func reportSchedViolation(fv *FoundViolation, race bool, mr, mp *Merged, t0 time
 	}
 	// a candidate counts only if it reproduces twice in fresh processes (keeps the minimised plan
 	// away from anything whose detection depends on accidental synchronisation inside dependencies)
+	if clause == "C14.deadlock" && first.Res.QUsed > 0 && first.Res.QUsed < len(pl.Schedule) {
+		// nothing after the point where everybody was blocked was ever used
+		c := pl
+		c.Schedule = append([]Quantum(nil), pl.Schedule[:first.Res.QUsed]...)
+		if matches(runOnePre(bin, &c, *fTmp, atomic, pre)) {
+			pl = c
+		}
+	}
 	pred := func(p *Plan) bool {
+		if clause == "C14.deadlock" {
+			return matches(runOnePre(bin, p, *fTmp, atomic, pre)) // nothing accidental about calls that never return
+		}
 		return matches(runOnePre(bin, p, *fTmp, atomic, pre)) && matches(runOnePre(bin, p, *fTmp, atomic, pre))
 	}
 	small := pl
+	if clause == "C14.deadlock" {
+		// every candidate waits out the patience twice: few candidates, shorter patience
+		childPatienceMS, shrinkBudget = 1000, 30
+	}
 	if pre == nil || !race {
 		small = shrinkSched(pl, pred) // with a prelude every candidate re-executes it: plain build only
 	}
+	childPatienceMS, shrinkBudget = 0, 400
 	r1 := runOnePre(bin, &small, *fTmp, atomic, pre)
-	r2 := runOnePre(bin, &small, *fTmp, atomic, pre)
+	r2 := r1
+	if clause == "C14.deadlock" {
+		// Once tasks block on primitives the simulator does not own, the order in which they are
+		// released is the runtime's, not the plan's: a deadlock need not form on every execution of
+		// the same plan. One that forms is a fact all the same (calls that never return cannot be
+		// accidental), so it must be seen again at least once in three further fresh processes.
+		for i := 0; i < 3 && !matches(r1); i++ {
+			r1 = runOnePre(bin, &small, *fTmp, atomic, pre)
+		}
+		r2 = r1
+	} else {
+		r2 = runOnePre(bin, &small, *fTmp, atomic, pre)
+	}
 	if !matches(r1) || !matches(r2) {
 		b, _ := json.Marshal(small)
 		infra("minimised C14 plan does not reproduce deterministically: want clause %s sig %q; run1 race=%v sig=%q clause=%q; run2 race=%v sig=%q clause=%q\nplan: %s", clause, sig, r1.Race, r1.RaceSig, r1.Res.Clause, r2.Race, r2.RaceSig, r2.Res.Clause, b)
@@ -1806,8 +1912,10 @@ func reportSchedViolation(fv *FoundViolation, race bool, mr, mp *Merged, t0 time
 }
 
 // shrinkSched: drop tasks, ops, shared objects, context switches; shorten strings.
+var shrinkBudget = 400
+
 func shrinkSched(p Plan, pred failPred) Plan {
-	budget := 400
+	budget := shrinkBudget
 	try := func(c Plan) bool {
 		if budget <= 0 {
 			return false
@@ -1931,6 +2039,9 @@ func replaySched(rep *Replay, kf *KnownFindings) int {
 	}
 	atomic := rep.Witness["atomic"] == "true"
 	r := runOnePre(bin, &rep.Plan, *fTmp, atomic, rep.Prelude)
+	for i := 0; i < 3 && rep.Clause == "C14.deadlock" && r.Res.Clause != rep.Clause; i++ {
+		r = runOnePre(bin, &rep.Plan, *fTmp, atomic, rep.Prelude) // see reportSchedViolation: a deadlock need not form every time
+	}
 	for _, l := range schedTrace(&rep.Plan) {
 		fmt.Println("   ", l)
 	}
